@@ -310,7 +310,11 @@ func (u *Universe) structOf(t types.Type) *structInfo {
 	u.structs[key] = si // (recursion through pointers never re-enters: pointers are Int)
 	for i := 0; i < st.NumFields(); i++ {
 		f := st.Field(i)
-		si.fields = append(si.fields, fmt.Sprintf("%s_%s", name, mangle(f.Name())))
+		fname := mangle(f.Name())
+		if f.Name() == "_" {
+			fname = fmt.Sprintf("blank%d", i)
+		}
+		si.fields = append(si.fields, fmt.Sprintf("%s_%s", name, fname))
 		si.ftypes = append(si.ftypes, f.Type())
 		si.fsorts = append(si.fsorts, u.sortOf(f.Type()))
 	}
